@@ -76,8 +76,10 @@ fn start(dep: &Deployment) -> Result<SocketAddr, String> {
     Ok(addr)
 }
 
-async fn disconnect_text(addr: SocketAddr, locale: &str, seed: u64) -> (Option<Value>, Vec<&'static str>) {
-    let Ok(end) = TcpEnd::connect(addr, None).await else { return (None, vec![]) };
+/// Returns the Disconnect reason, the clientbound packet names and - for C05 at the listener - what
+/// was left of the clientbound byte stream that did not decrypt and parse as whole frames.
+async fn disconnect_text(addr: SocketAddr, locale: &str, seed: u64) -> (Option<Value>, Vec<&'static str>, Option<String>) {
+    let Ok(end) = TcpEnd::connect(addr, None).await else { return (None, vec![], None) };
     let mut secret = [0u8; 16];
     Rng::new(seed).fill(&mut secret);
     let claimed = Ident { name: "Claimed".into(), uuid: seed as u128 };
@@ -88,7 +90,12 @@ async fn disconnect_text(addr: SocketAddr, locale: &str, seed: u64) -> (Option<V
         Ok(Pkt::ConfDisconnect { reason }) => Some(reason.clone()),
         _ => None,
     });
-    (reason, log.names())
+    let leftover = match (&log.garbage, log.incomplete_tail) {
+        (Some((_, bytes)), _) => Some(format!("{} bytes that are not a frame under the connection's cipher: {}", bytes.len(), vp_common::report::hex(&bytes[..bytes.len().min(48)]))),
+        (None, n) if n > 0 => Some(format!("{n} trailing bytes that are only the beginning of a frame under the connection's cipher")),
+        _ => None,
+    };
+    (reason, log.names(), leftover)
 }
 
 pub async fn run(_cli: &Cli, report: &mut Report) {
@@ -96,6 +103,9 @@ pub async fn run(_cli: &Cli, report: &mut Report) {
         Deployment { name: "default-locale-in-the-file", file_default: Some("fr"), env_default: None, expect: &[("de_at", "de_at"), ("de_ch", "de"), ("zz_zz", "fr"), ("", "fr"), ("pt_br", "pt_br"), ("pt_pt", "fr")] },
         Deployment { name: "default-locale-from-the-environment", file_default: None, env_default: Some("xx"), expect: &[("de_de", "de"), ("zz_zz", "xx"), ("en_us", "xx"), ("fr_ca", "fr")] },
         Deployment { name: "default-locale-with-region-from-the-environment", file_default: None, env_default: Some("de_at"), expect: &[("zz", "de_at"), ("fr_fr", "fr")] },
+        // the default locale itself falls back from region to language
+        Deployment { name: "default-locale-without-a-table-of-its-own", file_default: Some("fr_ca"), env_default: None, expect: &[("zz_zz", "fr"), ("", "fr"), ("de_de", "de")] },
+        Deployment { name: "default-locale-without-a-table-of-its-own-from-the-environment", file_default: None, env_default: Some("pt_br_x"), expect: &[("zz", "pt_br")] },
     ];
     for dep in &deployments {
         let addr = match start(dep) {
@@ -110,7 +120,15 @@ pub async fn run(_cli: &Cli, report: &mut Report) {
             continue;
         }
         for (i, (locale, table)) in dep.expect.iter().enumerate() {
-            let (reason, names) = disconnect_text(addr, locale, 31_000 + i as u64).await;
+            let (reason, names, leftover) = disconnect_text(addr, locale, 31_000 + i as u64).await;
+            report.count("encrypted connections ended by the server whose whole clientbound stream was decrypted and parsed", 1);
+            if let Some(what) = leftover {
+                report.violation(
+                    "clientbound-stream-not-one-cipher-stream/after-no-target-disconnect",
+                    &format!("after the switch to encryption the client received {what}"),
+                    json!({"deployment": dep.name, "client_locale": locale, "clientbound": names}),
+                );
+            }
             report.eval(Some(&format!("configured-localization/{}/{}", dep.name, if locale.is_empty() { "empty" } else { locale })));
             report.count("no-target Disconnects received from an application started from its configuration", reason.is_some() as u64);
             let want = message(table);
